@@ -125,6 +125,11 @@ def _state_checks(sx, tag, kindobj, obj, st, dims):
         out.append((tag + "inv-n", nn == list(st.n) and all(v >= 1 for v in nn)))
         nd = len(st.lo)
         out.append((tag + "inv-cell*n=edges", sx.eq([mesh.cell[a] * nn[a] for a in range(nd)], [st.hi[a] - st.lo[a] for a in range(nd)])))
+        # the index <-> coordinate maps follow the transformed lattice (first and last cell)
+        first = mesh.index2point(tuple([0] * nd))
+        last = mesh.index2point(tuple(v - 1 for v in nn))
+        out.append((tag + "inv-first-centre", sx.eq(list(first), [st.lo[a] + (st.hi[a] - st.lo[a]) / (2 * nn[a]) for a in range(nd)])))
+        out.append((tag + "inv-last-centre", sx.eq(list(last), [st.hi[a] - (st.hi[a] - st.lo[a]) / (2 * nn[a]) for a in range(nd)])))
         out.append((tag + "sub-names", list(mesh.subregions) == list(st.subs)))
         for name, (l, h) in st.subs.items():
             if name in mesh.subregions:
